@@ -17,7 +17,7 @@ from vmon.props.c10 import cp_positions
 
 ID = "C11"
 RULE = (
-    "seeded (data, noise, kernel spec, mean, theta) as for C02 with n = 3-25: scores evaluated at theta vectors different from "
+    "seeded (data, noise, kernel spec, mean incl. the two user-written ones, theta) as for C02 with n = 3-25: scores evaluated at theta vectors different from "
     "the one the regressor was built with; automatic selections on small data sets for both optimisers x both criteria; "
     "judged when cond(K+S) <= 1e9; non-trivial = n >= 4 and (composite kernel or non-constant mean or d >= 2); "
     "distinct = distinct (spec, data, theta)"
